@@ -394,6 +394,13 @@ func init() {
 						b[c.Intn(minInt(len(b), 8))] ^= 1 << uint(c.Intn(8))
 					}
 					emit(1203, TBytes(b))
+					if c.Intn(4) == 0 {
+						// every cut inside the uncompressed header: each field of the syntax table is once the
+						// first one that is missing (the error returns of the bit reader are otherwise never taken)
+						for k := 0; k <= minInt(len(f.bytes), 14); k++ {
+							emit(1203, TBytes(f.bytes[:k]))
+						}
+					}
 				}
 			}
 		},
